@@ -228,6 +228,7 @@ type windowCase struct {
 	NBEdge   string `json:"notBefore_plus_skew_minus_now"`
 	NAEdge   string `json:"notAfter_plus_skew_minus_now"`
 	Field    string `json:"field_variant"`
+	Relay    bool   `json:"relay_fields_outside_the_bundle_set,omitempty"`
 	Expected bool   `json:"model_accepts"`
 	Got      string `json:"got"`
 }
@@ -422,6 +423,17 @@ func TestProp_Window(t *testing.T) {
 			req = &types.FetchNodeCredentialsRequest{Bundle: b, BundleSignature: sig}
 		}
 		c.Expected = windowOK && (c.Field == "ok" || strings.HasPrefix(c.Field, "not-")) // window-far-away: windowOK is false
+		// the relay fields travel OUTSIDE the signed bundle: whoever forwards the request
+		// (or the sender) can set them to anything. They change nothing about the bundle's
+		// freshness; with junk in them a fetch can only fail.
+		if rapid.IntRange(0, 3).Draw(t, "relayFieldsSet") == 0 && c.Entry != "fetch-wrapped" {
+			req.RewrappedWrappingRegistrationFlowInfo = []byte("not a sealed blob at all")
+			req.RewrappingKeyId = rapid.SampledFrom([]string{"no-such-node", actor.KeyID}).Draw(t, "relayKeyId")
+			c.Relay = true
+			if c.Entry != "authorize" {
+				c.Expected = false
+			}
+		}
 		opts := w.O(nodeenrollment.WithNotBeforeClockSkew(nbSkew), nodeenrollment.WithNotAfterClockSkew(naSkew))
 		w.Rec.Reset()
 		var err error
@@ -460,7 +472,7 @@ func TestProp_Window(t *testing.T) {
 		// The very same request once more, with nothing in between - but this time the
 		// server is configured without clock skews, under which the request's window does
 		// not contain now: acceptance a moment ago must not carry over.
-		if err == nil && c.Expected && c.Field == "ok" && (c.Entry == "fetch-authorized" || c.Entry == "fetch-unknown") {
+		if err == nil && c.Expected && !c.Relay && c.Field == "ok" && (c.Entry == "fetch-authorized" || c.Entry == "fetch-unknown") {
 			off1, off2 := a-nbSkew, b-naSkew // window edges relative to now
 			outside := off1 > 3*time.Second || off2 < -3*time.Second
 			if outside {
